@@ -238,13 +238,31 @@ func (e *Ev) callStatic(fn *types.Func, recv *Term, args []Term, n *ast.CallExpr
 			v := e.load(loc, n)
 			r := e.freshRef("tmp" + sanitize(e.sortOf(pt.Elem())))
 			hl := &Loc{Kind: "heap", Name: e.heapName(pt.Elem()), Ref: r, T: pt.Elem()}
+			// the temporary is a fresh object: writing it is not a write of the unit's frame
+			was := e.u.writes[hl.Name]
 			e.store(hl, Term{S: v.S, Sort: v.Sort, T: pt.Elem()}, n)
+			if !was {
+				delete(e.u.writes, hl.Name)
+			}
 			*t = Term{S: r, Sort: sInt, T: t.T}
 			e.g().Assumed["interior / local-variable pointers passed to "+key+" are modelled by copy-in/copy-out (the callee does not retain them)"] = true
-			outs = append(outs, func() {
-				nv := e.load(hl, n)
-				e.store(loc, nv, n)
-			})
+			// copy back only if the callee's frame lets it change the pointee itself
+			mayWrite := false
+			for _, c := range b.clauses("modifies") {
+				for _, it := range splitTopSpaces(c.Text) {
+					if it == "*" || it == hl.Name || strings.HasPrefix(it, "fields(") || strings.HasPrefix(it, "allbut(") {
+						mayWrite = true
+					}
+				}
+			}
+			if mayWrite {
+				outs = append(outs, func() {
+					nv := e.load(hl, n)
+					e.store(loc, nv, n)
+				})
+			} else {
+				outs = append(outs, func() {})
+			}
 		}
 		mat(recv)
 		for i := range args {
